@@ -60,8 +60,36 @@ def gen_case(rng: Rng, i: int, tier: str):
     for _ in range(n):
         op = r.wpick([(2, "getnames"), (1, "list"), (2, "test"), (3, "testzip"), (3, "extractall_f"), (3, "extract"), (2, "reset")])
         seq.append({"op": op})
-    return {"base": base, "kind": kind, "mseed": r.randrange(1 << 30), "seq": seq, "open": r.pick(["stream", "path"]),
+    r2 = rng.sub("k2")
+    if r2.chance(0.2):
+        # a base written by the reference writer: the layouts py7zr's own writer never makes (pack-stream CRCs, gaps, folder
+        # CRCs only, several folders per session, no SubStreamsInfo ...) reach parser and test() branches the others cannot
+        from props import c06
+
+        for attempt in range(10):
+            c = c06.gen_case(rng.sub("ref%d" % attempt), 10 ** 6, tier)
+            if "members" in c and c["members"]:
+                for m in c["members"]:
+                    if m.get("content") and m["content"].get("len", 0) > 400:
+                        m["content"]["len"] = 400
+                base = {"ref": {"members": c["members"], "layout": c["layout"]}}
+                break
+    if r2.chance(0.15):
+        # directed: declared quantities (sizes, positions, counts) far beyond the input, every reading call once
+        kind = "sizes"
+        seq = [{"op": op} for op in ["getnames", "test", "testzip", "extractall_f", "extract"]]
+        r2.shuffle(seq)
+        seq = seq[: r2.randint(2, 5)]
+    return {"base": base, "kind": kind, "mseed": r.randrange(1 << 30), "seq": seq, "open": r.pick(["stream", "path", "anon"]),
             "chunk": r.pick([17, 4096, 128000000])}
+
+
+def _base_chains(case):
+    if "archive" in case["base"]:
+        return [s.get("chain") for s in case["base"]["archive"]["sessions"]]
+    if "ref" in case["base"]:
+        return [[{"id": f["id"]} for f in fo["chain"]] for fo in case["base"]["ref"]["layout"]["folders"]]
+    return []
 
 
 def _base_image(case):
@@ -69,7 +97,7 @@ def _base_image(case):
         fx = case["base"]["fixture"]
         with open(os.path.join(REPO, "tests", "data", fx), "rb") as f:
             return f.read(), FIXTURE_PW.get(fx), None
-    b = rsess.build_archive(case["base"]["archive"])
+    b = rsess.build_from_ref(case["base"]["ref"]) if "ref" in case["base"] else rsess.build_archive(case["base"]["archive"])
     if b.rejected or b.error is not None or b.image is None:
         return None, None, None
     return b.image, b.password, b
@@ -96,6 +124,22 @@ def make_input(case):
     if kind == "structure" and a is not None and a.header_bytes:
         toks = M.tokenize(a.header_bytes)
         toks, desc = M.mutate(toks, r)
+        raw = M.serialise(toks)
+        data = W.reseal(img, raw, keep_upto=32 + (a.data_end or 0) if a.header_kind == "encoded" else None)
+        entered = True
+    elif kind == "sizes" and a is not None and a.header_bytes:
+        toks = M.tokenize(a.header_bytes)
+        cands = [k for k, t in enumerate(toks) if t.kind == "num" and t.label in ("packpos", "packsize", "unpacksize", "substreamsize", "numpackstreams",
+                                                                                  "numfolders", "numunpackstream", "numfiles", "numcoders")]
+        # pack sizes are what test() and the decoders count down: weight them up
+        cands += [k for k in cands if toks[k].label == "packsize"] * 3
+        for _ in range(r.randint(1, 2)):
+            if not cands:
+                break
+            k = r.pick(cands)
+            old = toks[k].val
+            toks[k].val = r.pick([1 << 31, (1 << 32) - 1, 1 << 32, 1 << 40, (1 << 63) - 1, 1 << 63, (1 << 64) - 1, len(img) + r.randint(0, 3), len(img) * 2 + 1])
+            desc.append("%s/%s %r->%r" % (toks[k].section, toks[k].label, old, toks[k].val))
         raw = M.serialise(toks)
         data = W.reseal(img, raw, keep_upto=32 + (a.data_end or 0) if a.header_kind == "encoded" else None)
         entered = True
@@ -151,7 +195,7 @@ def run_case(case):
     res["faults"][case["kind"]] = 1
     budget = 300000 + 60 * len(data) + 4 * min(declared, 64 << 20)
     cls = {"kind": case["kind"], "open": case["open"]}
-    base_chains = [s.get("chain") for s in case["base"]["archive"]["sessions"]] if "archive" in case["base"] else []
+    base_chains = _base_chains(case)
     cls.update(gen.dep_flags(base_chains, None, None))
 
     def viol(oracle, site, detail, **extra):
@@ -205,7 +249,7 @@ def run_case(case):
                 log.append((name, "MEM"))
                 return None, None
 
-        target = rsess.READ_PATH if case["open"] == "path" else SimRaw(fs.get(rsess.READ_PATH), readable=True)
+        target = rsess.READ_PATH if case["open"] == "path" else SimRaw(fs.get(rsess.READ_PATH), readable=True, anonymous=case["open"] == "anon")
         ok, z = guarded("open", lambda: py7zr.SevenZipFile(target, "r", password=pw))
         if ok:
             names = []
@@ -336,7 +380,7 @@ def shrink_candidates(case):
 
 
 def case_class(case):
-    base_chains = [s.get("chain") for s in case["base"]["archive"]["sessions"]] if "archive" in case["base"] else []
+    base_chains = _base_chains(case)
     d = {"kind": case["kind"]}
     d.update(gen.dep_flags(base_chains, None, None))
     return d
